@@ -73,6 +73,7 @@ CONST_CHOICES = {
     "B": ["0", "1", "True", "False"],
     "e": [0, 1, 2, 3],
     "z": [0, 1],
+    "Z": [0],
 }
 
 
